@@ -75,7 +75,11 @@ impl<T> InnerQueue<T> {
         match self.queue.pop() {
             Some(data) => Ok(data),
             None => match self.tx_ports.load(Ordering::Acquire) {
-                0 => Err(RecvTimeoutError::Disconnected),
+                0 => {
+                    // the permit was the disconnect signal: pass it on to the next receiver
+                    self.sem.post();
+                    Err(RecvTimeoutError::Disconnected)
+                }
                 _n => unreachable!("mpmc recv found no data"),
             },
         }
@@ -87,10 +91,13 @@ impl<T> InnerQueue<T> {
         if !self.sem.try_wait() {
             #[cfg(may_verif)]
             crate::verif::pt("mpmc.try.load_tx", crate::verif::addr(self), 0, 0);
-            return match self.tx_ports.load(Ordering::Acquire) {
-                0 => Err(TryRecvError::Disconnected),
-                _ => Err(TryRecvError::Empty),
-            };
+            if self.tx_ports.load(Ordering::Acquire) != 0 {
+                return Err(TryRecvError::Empty);
+            }
+            // there is no sender any more, so every message has been posted: re-check
+            if !self.sem.try_wait() {
+                return Err(TryRecvError::Disconnected);
+            }
         }
 
         #[cfg(may_verif)]
@@ -98,7 +105,11 @@ impl<T> InnerQueue<T> {
         match self.queue.pop() {
             Some(data) => Ok(data),
             None => match self.tx_ports.load(Ordering::Acquire) {
-                0 => Err(TryRecvError::Disconnected),
+                0 => {
+                    // the permit was the disconnect signal: pass it on to the next receiver
+                    self.sem.post();
+                    Err(TryRecvError::Disconnected)
+                }
                 _ => unreachable!("mpmc try_recv found no data"),
             },
         }
@@ -115,13 +126,12 @@ impl<T> InnerQueue<T> {
         crate::verif::pt("mpmc.drop_tx.dec", crate::verif::addr(self), 0, 0);
         match self.tx_ports.fetch_sub(1, Ordering::SeqCst) {
             1 => {
-                // there is no tx port any more
-                // should tell all the waited rx to come back
+                // there is no tx port any more: leave one permit that never stands for a
+                // message; every receiver that finds no data behind it passes it on, so all
+                // of them (blocked now, about to block, or arriving later) come back
                 #[cfg(may_verif)]
                 crate::verif::pt("mpmc.drop_tx.get", crate::verif::addr(self), 0, 0);
-                while self.sem.get_value() == 0 {
-                    self.sem.post();
-                }
+                self.sem.post();
             }
             n if n > 1 => {}
             n => panic!("bad number of tx_ports left {n}"),
